@@ -149,10 +149,10 @@ def two(k: int, npool: int, o1: int, t1: int, a1: int, o2: int, t2: int, a2: int
             k = param.Parameter(default=O[0], constant=True, allow_refs=True)
 
         class Q(P):
-            pass
+            name = param.String(default='qname')       # a class that overrides the default of the (constant) name
         src = S()
     insts = [Q(), Q()]
-    held = [{'c': O[0], 'k': O[0]}, {'c': O[0], 'k': O[0]}]
+    held = [{'c': O[0], 'k': O[0], 'name': 'qname'}, {'c': O[0], 'k': O[0], 'name': 'qname'}]
     stack = []      # (context manager, index of the instance it was opened on)
     for step, (o, t, a) in enumerate(((o1, t1, a1), (o2, t2, a2), (o3, t3, a3), (o4, t4, a4), (o5, t5, a5))[:k]):
         o = pick(o, 0, N2 - 1)
@@ -189,11 +189,14 @@ def two(k: int, npool: int, o1: int, t1: int, a1: int, o2: int, t2: int, a2: int
         elif o == 3:    # a new instance, possibly while a block of another object is open
             assume(len(insts) < 3)
             insts.append(Q())
-            held.append({'c': Q.c, 'k': Q.k})
+            held.append({'c': Q.c, 'k': Q.k, 'name': Q.name})
         elif o == 4:    # class-level set on P / Q
             K = P if a % 2 == 0 else Q
             try:
-                K.c = v
+                if a == 2:
+                    Q.name = NAMES[t % 3]
+                else:
+                    K.c = v
             except TypeError:
                 pass
         else:           # a reference handed to the constant k of instance t while no block is open, then its source changes
@@ -208,7 +211,7 @@ def two(k: int, npool: int, o1: int, t1: int, a1: int, o2: int, t2: int, a2: int
             check('C14.ref_to_constant_rejected', res == 'TypeError', dict(info, target=t, res=res))
             src.v = v
         for i, ob in enumerate(insts):
-            check('C14.const_identity', ob.c is held[i]['c'] and ob.k is held[i]['k'], dict(info, inst=i))
+            check('C14.const_identity', ob.c is held[i]['c'] and ob.k is held[i]['k'] and ob.name == held[i]['name'], dict(info, inst=i))
         if not stack:
             ok = all(ob.param[n].constant is True for ob in insts for n in ('c', 'k', 'name')) and \
                 all(K.param[n].constant is True for K in (P, Q) for n in ('c', 'k', 'name'))
@@ -263,7 +266,7 @@ def shards(tier):
             c = dict(k=k2, npool=3, o1=o1, o2=o2)
             for j in range(k2 + 1, 6):
                 c.update({'o%d' % j: 0, 't%d' % j: 0, 'a%d' % j: 0})
-            out.append(dict(name='two_o%d%d' % (o1, o2), module='harness.c14', fn='two', consts=c, budget_s=60 if q else 600))
+            out.append(dict(name='two_o%d%d' % (o1, o2), module='harness.c14', fn='two', consts=c, budget_s=40 if q else 600))
     return out
 
 
